@@ -439,7 +439,26 @@ const (
 
 func mainOpaque() []string {
 	out := []string{fnAsLogMap, fnNewLog, fnWitnessNew, fnFeedFunc, fnNewServer, "(*" + pIHTTP + ".Server).RegisterHandlers", fnNewDistributor, fnDistOnceM, fnFeedBastion}
+	out = append(out, logMapBuilders...)
 	return append(out, distCtors...)
+}
+
+// logMapBuilders: the functions of the omniwitness package that return the witness's log map (map[string]witness.LogInfo,
+// error): AsLogMap and any sibling that builds the same map from already parsed entries (filled when the world is loaded).
+var logMapBuilders []string
+
+func findLogMapBuilders(w *World) []string {
+	var out []string
+	for _, fn := range w.prodFns() {
+		if fn.Parent() != nil || pkgPathOf(fn) != pOmni || fn.Signature.Results().Len() != 2 {
+			continue
+		}
+		if typeStr(fn.Signature.Results().At(0).Type()) == "map[string]witness.LogInfo" && funcName(fn) != fnAsLogMap {
+			out = append(out, funcName(fn))
+		}
+	}
+	sort.Strings(out)
+	return out
 }
 
 // distCtors: every package-level function of the distributor package that returns a *Distributor (filled by ctorsOf when
@@ -517,7 +536,7 @@ func mainPaths(w *World, r *Run, rule string) ([]mainPath, *Engine, bool) {
 			c := c
 			mp.newW = &c
 		}
-		for _, c := range calls(s, fnAsLogMap) {
+		for _, c := range calls(s, append([]string{fnAsLogMap}, logMapBuilders...)...) {
 			c := c
 			mp.asMap = &c
 		}
@@ -651,6 +670,14 @@ func ruleOneWitness(w *World, r *Run, rule string) {
 		cfgVal := mp.asMap.Recv
 		for _, nl := range calls(s, fnNewLog) {
 			sameCfg := anySub(nl.Args[0], func(t *Term) bool { return t.Kind == "field" && t.Name == "Logs" && t.Args[0] == cfgVal })
+			if cfgVal == nil {
+				// the map is built from the very list of parsed entries
+				for _, a := range mp.asMap.Args {
+					if a != nil && mentions(a, res(nl, 0)) {
+						sameCfg = true
+					}
+				}
+			}
 			r.Check(sameCfg, rule, fnMain+" | feeder list and witness map describe the same configuration", w.pos(nl.Pos), "config.NewLog iterates a different configuration than the one AsLogMap converts")
 		}
 		// the log list handed to the push components (bastion endpoint, distributor) names every configured log
